@@ -205,7 +205,14 @@ def main():
             else:
                 call = lambda: raw(selfv, **args)
         else:
-            m = importlib.import_module(modname(rp['module']))
+            if rp['module'].startswith('<verif>/'):
+                # a scenario (harness) function of /verif: an importable module of its own
+                mp = os.path.join(os.path.dirname(os.path.dirname(os.path.abspath(__file__))), rp['module'][len('<verif>/'):])
+                sp_ = importlib.util.spec_from_file_location('scenario_module', mp)
+                m = importlib.util.module_from_spec(sp_)
+                sp_.loader.exec_module(m)
+            else:
+                m = importlib.import_module(modname(rp['module']))
             f = getattr(m, fname)
             call = lambda: f(**args)
         env = dict(spec)
